@@ -446,6 +446,7 @@ static bool alloc_request(Task *t, uintptr_t ra, uint32_t *site_out) {
     OpResult &r = t->res[t->cur_op];
     uint32_t k = ++t->alloc_count;
     uint32_t s = site_id(ra);
+    if (t->in_once > 0 && r.once_allocs < 255) r.once_allocs++;
     *site_out = s;
     r.nalloc++;
     r.sites.push_back(s);
@@ -1384,6 +1385,10 @@ static void *task_main(void *arg) {
     t->self_id = (uintptr_t)pthread_self();
     while (sem_wait(&t->sem) != 0) {}
     const TaskPlan &tp = *t->plan;
+    {
+        static const int modes[4] = {FE_TONEAREST, FE_UPWARD, FE_DOWNWARD, FE_TOWARDZERO};
+        fesetround(modes[tp.fe_round & 3]); // the harness's own call: this thread's rounding mode is the caller's business
+    }
     for (size_t i = 0; i < tp.ops.size(); i++) {
         t->cur_op = (int)i;
         t->ev = 0;
@@ -1539,8 +1544,9 @@ void run_pass(const Plan &plan, const PassCfg &cfg, Strategy &strat, PassResult 
         if (last >= 0) finish_digest(*t, t->res[last]);
     }
     // blocks still live now that every thread has ended and run its exit handlers: released by nobody
+    // (a block allocated inside a one-time initialiser is a bounded, process-lifetime object, not something a call leaks)
     for (auto &a : g_live)
-        if (a.task >= 0 && a.task < (int)g_sim.tasks.size() && a.op >= 0 && a.op < (int)g_sim.tasks[a.task]->res.size()) g_sim.tasks[a.task]->res[a.op].leaked++;
+        if (!a.once && a.task >= 0 && a.task < (int)g_sim.tasks.size() && a.op >= 0 && a.op < (int)g_sim.tasks[a.task]->res.size()) g_sim.tasks[a.task]->res[a.op].leaked++;
     out.res.clear();
     for (Task *t : g_sim.tasks) out.res.push_back(t->res);
     out.recorded = g_sim.recorded;
